@@ -471,6 +471,21 @@ def u_truncated(E):
 
 # ---------------------------------------------------------------- IpmReader / IpmWriter plumbing
 
+def bound_call(E, qual, args, kw):
+    """the recorded call normalised to the parameter names of iso8583.dumps / loads (positional or keyword use is the same call)"""
+    try:
+        return E.bind_args(E.get_function(qual), list(args), dict(kw))
+    except Exception:
+        return dict(kw)
+
+
+def same_text(E, name, got, want, tier='P'):
+    if isinstance(got, VSeq) and isinstance(want, VSeq):
+        E.prove_value_eq(name, got, want, tier)
+    else:
+        E.prove(name, z3.BoolVal(got is want), tier)
+
+
 def install_loads_contract(E, mode):
     """iso8583.loads by contract (its own contract is C07/C01): returns a dict or raises Iso8583DataError"""
     def apply_loads(E, args, kw):
@@ -535,10 +550,11 @@ def u_ipm_next(E):
     # normal return: loads was handed exactly the framed record, with this reader's encoding and configuration
     E.prove('IpmReader.__next__/returns-loads-result', z3.BoolVal(isinstance(out, VRef) and out.oid == E.ghost.get('loads_result', VRef(-1)).oid), 'P')
     args, kw = E.ghost['loads_args']
+    b = bound_call(E, I8 + 'loads', args, kw)
     E.prove('IpmReader.__next__/record-only-if-framed', framed, 'P')
-    E.prove_value_eq('IpmReader.__next__/decodes-this-record', args[0], seq_slice(Sx, q + 4, q + 4 + L), 'P')
-    E.prove('IpmReader.__next__/uses-own-encoding', z3.BoolVal(kw.get('encoding') is enc), 'P')
-    E.prove('IpmReader.__next__/uses-own-config', z3.BoolVal(kw.get('iso_config') is cfg), 'P')
+    E.prove_value_eq('IpmReader.__next__/decodes-this-record', b.get('b', args[0] if args else NONE), seq_slice(Sx, q + 4, q + 4 + L), 'P')
+    same_text(E, 'IpmReader.__next__/uses-own-encoding', b.get('encoding'), enc)
+    E.prove('IpmReader.__next__/uses-own-config', z3.BoolVal(b.get('iso_config') is cfg), 'P')
     E.prove('IpmReader.__next__/counter', E.as_int(E.getf(rd, 'record_number')) == k + 1, 'I')
 
 
@@ -576,9 +592,12 @@ def u_ipmw_write(E):
     msg = E.new_dict({'MTI': lift('1144')})
     E.method(w, 'write', msg)
     args, kw = E.ghost['dumps_args']
-    E.prove('IpmWriter.write/encodes-this-message', z3.BoolVal(isinstance(args[0], VRef) and args[0].oid == msg.oid), 'P')
-    E.prove('IpmWriter.write/uses-own-encoding', z3.BoolVal(kw.get('encoding') is enc), 'P')
-    E.prove('IpmWriter.write/uses-own-config', z3.BoolVal(isinstance(kw.get('iso_config'), VRef) and kw['iso_config'].oid == cfg.oid), 'P')
+    b = bound_call(E, I8 + 'dumps', args, kw)
+    # object identity is a proof device (an equal copy of the message / configuration would serve the property as well): I-tier
+    E.prove('IpmWriter.write/encodes-this-message', z3.BoolVal(isinstance(b.get('obj'), VRef) and b['obj'].oid == msg.oid), 'I')
+    same_text(E, 'IpmWriter.write/uses-own-encoding', b.get('encoding'), enc)
+    E.prove('IpmWriter.write/uses-own-config', z3.BoolVal(isinstance(b.get('iso_config'), VRef) and b['iso_config'].oid == cfg.oid), 'I')
+    E.prove('IpmWriter.write/passes-a-configuration', z3.BoolVal(isinstance(b.get('iso_config'), VRef)), 'P')
     E.prove_value_eq('IpmWriter.write/frames-the-encoded-record', E.getf(f, 'content'),
                      seq_concat(seq_concat(stream, S.be32(rec.n)), rec), 'P')
     # constructor keeps its arguments
@@ -596,8 +615,10 @@ def u_ipmw_write(E):
     E.ghost.pop('dumps_args', None)
     E.method(w3, 'write', msg)
     a3, k3 = E.ghost.get('dumps_args', ([], {}))
-    E.prove('IpmWriter(real constructor).write/uses-the-configuration-it-was-given', z3.BoolVal(isinstance(k3.get('iso_config'), VRef) and k3['iso_config'].oid == cfg.oid), 'P')
-    E.prove('IpmWriter(real constructor).write/uses-the-encoding-it-was-given', z3.BoolVal(k3.get('encoding') is enc), 'P')
+    b3 = bound_call(E, I8 + 'dumps', a3, k3)
+    E.prove('IpmWriter(real constructor).write/uses-the-configuration-it-was-given', z3.BoolVal(isinstance(b3.get('iso_config'), VRef) and b3['iso_config'].oid == cfg.oid), 'I')
+    E.prove('IpmWriter(real constructor).write/passes-a-configuration', z3.BoolVal(isinstance(b3.get('iso_config'), VRef)), 'P')
+    same_text(E, 'IpmWriter(real constructor).write/uses-the-encoding-it-was-given', b3.get('encoding'), enc)
 
 
 # ---------------------------------------------------------------- instance isolation (C06) - frames
@@ -704,12 +725,16 @@ def u_ipmw_write_many(E):
         E.prove(tag + '/one-encoding-per-record', z3.BoolVal(len(calls) == 2), 'P')
         for k, (m, c) in enumerate(zip((m1, m2), calls)):
             a, kw = c
-            obj = a[0] if a else kw.get('obj')
-            cfg_arg = kw.get('iso_config', a[2] if len(a) > 2 else None)
-            enc_arg = kw.get('encoding', a[1] if len(a) > 1 else None)
-            E.prove('%s/record-%d-is-the-%s-message' % (tag, k, 'first' if k == 0 else 'second'), z3.BoolVal(isinstance(obj, VRef) and obj.oid == m.oid), 'P')
-            E.prove('%s/record-%d-encoded-with-the-writers-configuration' % (tag, k), z3.BoolVal(isinstance(cfg_arg, VRef) and cfg_arg.oid == cfg.oid), 'P')
-            E.prove('%s/record-%d-encoded-with-the-writers-encoding' % (tag, k), z3.BoolVal(enc_arg is enc), 'P')
+            bb = bound_call(E, I8 + 'dumps', a, kw)
+            obj, cfg_arg, enc_arg = bb.get('obj'), bb.get('iso_config'), bb.get('encoding')
+            E.prove('%s/record-%d-encoded-with-a-configuration' % (tag, k), z3.BoolVal(isinstance(cfg_arg, VRef)), 'P')
+            # object identity is a proof device (an equal copy would do): I-tier; the encoding is compared by value
+            E.prove('%s/record-%d-is-the-%s-message' % (tag, k, 'first' if k == 0 else 'second'), z3.BoolVal(isinstance(obj, VRef) and obj.oid == m.oid), 'I')
+            E.prove('%s/record-%d-encoded-with-the-writers-configuration' % (tag, k), z3.BoolVal(isinstance(cfg_arg, VRef) and cfg_arg.oid == cfg.oid), 'I')
+            if isinstance(enc_arg, VSeq):
+                E.prove_value_eq('%s/record-%d-encoded-with-the-writers-encoding' % (tag, k), enc_arg, enc, 'P')
+            else:
+                E.prove('%s/record-%d-encoded-with-the-writers-encoding' % (tag, k), False, 'P')
         if not blocked:
             one = seq_concat(S.be32(rec.n), rec)
             E.prove_value_eq(tag + '/both-records-framed-in-order', E.getf(f, 'content'), seq_concat(one, one), 'P')
